@@ -29,6 +29,7 @@ func genBase(combs []string) func(t *rapid.T) fk.Case {
 		}
 		n := len(c.Input)
 		c.N = rapid.SampledFrom([]int{1, 2, 3, n, n + 1, 0}).Draw(t, "n")
+		c.EWraps = rapid.SampledFrom([]int{0, 0, 0, 1, 2}).Draw(t, "ewraps")
 		if c.N < 1 && (c.Comb == "Chunk" || c.Comb == "Batch") {
 			c.N = 1
 		}
